@@ -11,8 +11,10 @@ META = {
                    "the model is run op-for-op against the real engine (including the un-read commit buffer and candidate end "
                    "positions) and the four clauses are also monitored directly on the implementation's outputs."),
     "level_note": ("Trusted: Lean kernel; keymap translator; model tied by differential runs. select_to_end's length hypothesis "
-                   "|composition input| <= |raw input| is an invariant of every reachable state (select_to_end_reachable); option `dumb` off; full_shape off "
-                   "(formatter is a parameter of the theorems); switcher menu not modelled (out of the property's scope)."),
+                   "|composition input| <= |raw input| is an invariant of every reachable state (select_to_end_reachable); option `dumb` off; the shape "
+                   "formatter is a parameter of the theorems (`env.format`; the monitor applies ShapeFormatter::Format while full_shape is on, "
+                   "which the two schemas with a punctuator generate); punctuator's own commit: C03.punct_autocommit_eq_preview; commit_clears_punct "
+                   "for the Compose with punctuation components; switcher menu not modelled (out of the property's scope)."),
     "design_ref": "DESIGN.md §2 M-session, §3 C03",
 }
 
@@ -41,6 +43,8 @@ def monitor(state, op, o):
         return None
     pend_b, pend_a = sc.unhex(prev.get("pending")), sc.unhex(o.get("pending"))
     opts = state.get("opts", {})
+    # the engine's shape formatter rewrites committed text while full_shape is on (schemas with punctuation generate the option)
+    fmt = sc.shape_format if opts.get("full_shape") else (lambda b: b)
     # (d) delivery
     if w[0] == "read_commit":
         got = sc.unhex(o.get("text")) if "text" in o else b""
@@ -58,7 +62,7 @@ def monitor(state, op, o):
     # (a) commit = preview
     if w[0] == "commit":
         if composing_b:
-            if delivered != sc.unhex(prev.get("preview")):
+            if delivered != fmt(sc.unhex(prev.get("preview"))):
                 return "commit!=preview"
             if o.get("composing") != "0" or sc.unhex(o.get("input")):
                 return "still-composing-after-commit"
@@ -92,7 +96,7 @@ def monitor(state, op, o):
                     expected = prefix + text
                     state["select_to_end"] = state.get("select_to_end", 0) + 1
                     if delivered:           # auto-committing editor
-                        if delivered != expected:
+                        if delivered != fmt(expected):
                             return "select-commit!=shown"
                         if o.get("composing") != "0":
                             return "still-composing-after-commit"
@@ -132,7 +136,8 @@ def run(c):
                 "monitor_violations": stats["violations"], "sanitizer_aborts_skipped": stats["crashes"],
                 "proof_failures": audit["failures"]})
     c.cov = cov
-    c.assumptions = ["full_shape off (formatter identity)", "option dumb off", "outside the schema-switcher menu"]
+    c.assumptions = ["committed text goes through the shape formatter (identity unless full_shape is on)", "option dumb off",
+                     "outside the schema-switcher menu"]
 
 
 def replay(c, r):
